@@ -7,7 +7,7 @@ import os, sys, json, re, glob, shutil
 mx = json.load(open(sys.argv[1] if len(sys.argv) > 1 else "/tmp/seed_matrix.json"))
 OUT = "/verif/seeded"
 ROUND = int(os.environ.get("ROUND", "2"))
-KEYS = ("m3", "m4", "b1", "b2", "b3", "b2r") if ROUND == 2 else ("m5", "m6", "b4", "b5", "b6")
+KEYS = {2: ("m3", "m4", "b1", "b2", "b3", "b2r"), 3: ("m5", "m6", "b4", "b5", "b6"), 4: ("m7", "m8", "b7", "b8", "b9")}[ROUND]
 n = 0
 for d in sorted(glob.glob("/tmp/wt-C??-out")):
     pid = os.path.basename(d)[3:6]
